@@ -213,9 +213,15 @@ package msgpipeline
 // rejected during this call, and a quarantine verdict (from this call or recorded earlier in the merged result) has
 // set the message's Quarantine flag.
 //@ func (*msgpipelineDelivery).Body
-//@   prop C06
+//@   prop C06 C03
 //@   modifies *
 //@   requires ddOK(dd)
+// C03: every target delivery is open when the body is handed to it, none is opened or closed here, and a nil result
+// means the body stage of every target succeeded.
+//@   requires pInv(dd)
+//@   ensures pInv(dd) && gOpen == old(gOpen) && gCommitted == old(gCommitted)
+//@   ensures result == nil ==> (forall t module.DeliveryTarget :: has(dd.deliveries, t) ==> gBodyErr[refOf(dd.deliveries[t].Delivery)] == nil)
+//@   loop 2 invariant pInv(dd) && gOpen == old(gOpen) && gCommitted == old(gCommitted) && (forall t module.DeliveryTarget :: has(dd.deliveries, t) && iterpos()[t] ==> gBodyErr[refOf(dd.deliveries[t].Delivery)] == nil)
 //@   ensures gRejectN > old(gRejectN) ==> result != nil
 //@   ensures old(dd.msgMeta.Quarantine) ==> dd.msgMeta.Quarantine
 //@   assert-call (module.Delivery).Body : allGroupsChecked(dd) && gRejectN == old(gRejectN)
@@ -226,12 +232,17 @@ package msgpipeline
 //@   loop 2 invariant ddOK(dd) && allGroupsChecked(dd) && gRejectN == old(gRejectN) && ((gQuarN > old(gQuarN) || old(dd.checkRunner.mergedRes.Quarantine) || old(dd.msgMeta.Quarantine)) ==> dd.msgMeta.Quarantine)
 // The LMTP / per-recipient path is held to the same protocol.
 //@ func (*msgpipelineDelivery).BodyNonAtomic
-//@   prop C06 C09
+//@   prop C06 C09 C03
+//@   requires pInv(dd)
+//@   ensures pInv(dd) && gOpen == old(gOpen) && gCommitted == old(gCommitted)
 // C09: a target that reports per recipient is given a collector that translates its keys through this message's
 // OriginalRcpts and passes them to the caller's collector; for any other target a failure is reported under the
 // entries of its recipient list (client-supplied addresses).
 //@   assert-call (module.PartialDelivery).BodyNonAtomic : isType($c, "statusCollector") && as($c, "statusCollector").originalRcpts == dd.msgMeta.OriginalRcpts && as($c, "statusCollector").wrapped == c
 //@   assert-call (module.StatusCollector).SetStatus : $c == c && $err != nil && $rcptTo == delivery.recipients[rangeindex + 1]
+// ... and the pipeline does not translate the keys it reports itself (they already are client-supplied addresses; a
+// second translation would rename a recipient that is also the rewriting target of another one).
+//@   assert-call (statusCollector).SetStatus : false
 //@   modifies *
 //@   requires ddOK(dd)
 //@   ensures old(dd.msgMeta.Quarantine) ==> dd.msgMeta.Quarantine
@@ -267,8 +278,8 @@ package msgpipeline
 // default block. An address without a lookup key, or a key that does not split, is refused.
 //@ pure func rcptFallback(sb sourceBlock, key string) *rcptBlock = has(sb.perRcpt, key) ? sb.perRcpt[key] : (has(sb.perRcpt, splitDom(key)) ? sb.perRcpt[splitDom(key)] : sb.defaultRcpt)
 //@ func (*msgpipelineDelivery).rcptBlockForAddr
-//@   prop C04
-//@   modifies *
+//@   prop C04 C03
+//@   modifies gSelBlock, gSelAddr
 //@   requires dd != nil
 //@   ensures !keyOK(rcptTo) ==> result1 != nil && result0 == nil
 //@   ensures keyOK(rcptTo) ==> (forall i int :: 0 <= i && i < len(old(dd.sourceBlock.rcptIn)) && tblHit(old(dd.sourceBlock.rcptIn)[i].t, lookupKey(rcptTo)) && (forall j int :: 0 <= j && j < i ==> !tblHit(old(dd.sourceBlock.rcptIn)[j].t, lookupKey(rcptTo))) ==> result1 == nil && result0 == old(dd.sourceBlock.rcptIn)[i].block)
@@ -325,10 +336,21 @@ package msgpipeline
 //@   requires dd != nil && dd.rcptModifiersState != nil && rcptBlock != nil
 //@   modifies mapOf(dd.rcptModifiersState)
 //@   ensures result1 == nil ==> result0 != nil || old(has(dd.rcptModifiersState, rcptBlock))
+// C03: the pipeline as a delivery. Every target delivery it holds is open, and distinct targets have distinct
+// delivery objects (a delivery returned by Start was not open before).
+//@ pure func pInvM(m map[module.DeliveryTarget]*delivery) bool = m != nil && (forall t module.DeliveryTarget :: has(m, t) ==> m[t] != nil && m[t].Delivery != nil && gOpen[refOf(m[t].Delivery)]) && (forall t module.DeliveryTarget, u module.DeliveryTarget :: has(m, t) && has(m, u) && t != u ==> refOf(m[t].Delivery) != refOf(m[u].Delivery))
+//@ pure func pInv(dd *msgpipelineDelivery) bool = dd != nil && pInvM(dd.deliveries)
+// pSame(dd): the call opened or closed nothing and left the set of target deliveries as it was.
+//@ pure func pSame(dd *msgpipelineDelivery) bool = gOpen == old(gOpen) && gCommitted == old(gCommitted) && dd.deliveries == old(dd.deliveries) && (forall t module.DeliveryTarget :: has(dd.deliveries, t) == old(has(dd.deliveries, t)) && dd.deliveries[t] == old(dd.deliveries[t]) && (has(dd.deliveries, t) ==> dd.deliveries[t].Delivery == old(dd.deliveries[t].Delivery)))
 //@ func (*msgpipelineDelivery).getDelivery
 //@   prop C04 C03
 //@   requires dd != nil && dd.deliveries != nil
 //@   modifies mapOf(dd.deliveries), gOpen, gAcc, gBodyErr, gCommitted
+//@   ensures old(pInv(dd)) ==> (forall t module.DeliveryTarget :: has(dd.deliveries, t) ==> dd.deliveries[t] != nil && dd.deliveries[t].Delivery != nil && gOpen[refOf(dd.deliveries[t].Delivery)])
+//@   ensures old(pInv(dd)) ==> (forall t module.DeliveryTarget :: old(has(dd.deliveries, t)) ==> dd.deliveries[t].Delivery == old(dd.deliveries[t].Delivery))
+//@   ensures old(pInv(dd)) && result1 == nil && !old(has(dd.deliveries, tgt)) ==> (forall t module.DeliveryTarget :: old(has(dd.deliveries, t)) ==> refOf(dd.deliveries[t].Delivery) != refOf(result0.Delivery))
+//@   ensures old(pInv(dd)) ==> (forall t module.DeliveryTarget, u module.DeliveryTarget :: has(dd.deliveries, t) && has(dd.deliveries, u) && t != u ==> refOf(dd.deliveries[t].Delivery) != refOf(dd.deliveries[u].Delivery))
+//@   ensures forall x ref :: old(gOpen)[x] ==> gOpen[x] && gCommitted[x] == old(gCommitted)[x]
 //@   ensures result1 == nil ==> has(dd.deliveries, tgt) && result0 == dd.deliveries[tgt]
 //@   ensures result1 == nil && !old(has(dd.deliveries, tgt)) ==> result0 != nil && fresh(result0) && len(result0.recipients) == 0
 //@   ensures forall t module.DeliveryTarget :: old(has(dd.deliveries, t)) ==> has(dd.deliveries, t) && dd.deliveries[t] == old(dd.deliveries[t])
@@ -338,7 +360,21 @@ package msgpipeline
 // the block the precedence function selected for that effective recipient, under the address produced by the block's
 // own modifiers; the client-supplied address is what is recorded for status reporting and in OriginalRcpts.
 //@ func (*msgpipelineDelivery).AddRcpt
-//@   prop C04 C09
+//@   prop C04 C09 C03
+//@   splitreturns
+//@   requires pInv(dd)
+//@   ensures pInv(dd)
+//@   ensures forall x ref :: old(gOpen)[x] ==> gOpen[x] && gCommitted[x] == old(gCommitted)[x]
+//@   loop 0 invariant pInv(dd) && (forall x ref :: old(gOpen)[x] ==> gOpen[x] && gCommitted[x] == old(gCommitted)[x])
+//@   loop 1 invariant pInv(dd)
+//@   loop 1 invariant forall x ref :: old(gOpen)[x] ==> gOpen[x] && gCommitted[x] == old(gCommitted)[x]
+//@   loop 1 invariant dd.rcptModifiersState != nil && ddOK(dd) && dd.msgMeta.OriginalRcpts != nil
+//@   loop 2 invariant pInv(dd)
+//@   loop 2 invariant forall x ref :: old(gOpen)[x] ==> gOpen[x] && gCommitted[x] == old(gCommitted)[x]
+//@   loop 2 invariant dd.rcptModifiersState != nil && ddOK(dd) && dd.msgMeta.OriginalRcpts != nil
+//@   loop 3 invariant pInv(dd)
+//@   loop 3 invariant forall x ref :: old(gOpen)[x] ==> gOpen[x] && gCommitted[x] == old(gCommitted)[x]
+//@   loop 3 invariant dd.rcptModifiersState != nil && ddOK(dd) && dd.msgMeta.OriginalRcpts != nil
 //@   modifies *
 //@   requires ddOK(dd) && dd.rcptModifiersState != nil && dd.deliveries != nil && dd.msgMeta.OriginalRcpts != nil
 //@   assert-call (*msgpipelineDelivery).rcptBlockForAddr : $rcptTo == to
@@ -349,3 +385,65 @@ package msgpipeline
 // C09: what a target delivery's recipient list (the keys of statuses reported for targets that cannot report per
 // recipient) grows by is the address the client supplied, once per AddRcpt accepted by that target.
 //@   assert-store recipients : $obj == delivery && len($value) == len($old) + 1 && $value[len($old)] == old(to) && (forall k int :: 0 <= k && k < len($old) ==> $value[k] == $old[k])
+
+// ---- C03: fan-out of Commit / Abort / Body to every target, each closed exactly once ----
+// Commit closes every target delivery (commits them; after a failed Commit the remaining ones are aborted), Abort
+// aborts every one; no target is called after it was closed (interface preconditions); a nil result of Commit means
+// every target committed; a nil result of Body means every target accepted the body.
+//@ func (msgpipelineDelivery).Commit
+//@   prop C03
+//@   modifies *
+//@   requires pInvM(dd.deliveries) && dd.checkRunner != nil
+//@   ensures forall t module.DeliveryTarget :: has(dd.deliveries, t) ==> !gOpen[refOf(dd.deliveries[t].Delivery)]
+//@   ensures result == nil ==> (forall t module.DeliveryTarget :: has(dd.deliveries, t) ==> gCommitted[refOf(dd.deliveries[t].Delivery)])
+//@   loop 0 invariant dd.deliveries == old(dd.deliveries) && (forall t module.DeliveryTarget :: has(dd.deliveries, t) == old(has(dd.deliveries, t)) && dd.deliveries[t] == old(dd.deliveries[t]) && (has(dd.deliveries, t) ==> dd.deliveries[t].Delivery == old(dd.deliveries[t].Delivery)))
+//@   loop 0 invariant forall t module.DeliveryTarget :: has(dd.deliveries, t) && !iterpos()[t] ==> gOpen[refOf(dd.deliveries[t].Delivery)]
+//@   loop 0 invariant forall t module.DeliveryTarget :: has(dd.deliveries, t) && iterpos()[t] ==> !gOpen[refOf(dd.deliveries[t].Delivery)]
+//@   loop 0 invariant firstErr == nil ==> (forall t module.DeliveryTarget :: has(dd.deliveries, t) && iterpos()[t] ==> gCommitted[refOf(dd.deliveries[t].Delivery)])
+//@ func (msgpipelineDelivery).Abort
+//@   prop C03
+//@   modifies *
+//@   requires pInvM(dd.deliveries) && dd.checkRunner != nil
+//@   ensures forall t module.DeliveryTarget :: has(dd.deliveries, t) ==> !gOpen[refOf(dd.deliveries[t].Delivery)]
+//@   loop 0 invariant dd.deliveries == old(dd.deliveries) && (forall t module.DeliveryTarget :: has(dd.deliveries, t) == old(has(dd.deliveries, t)) && dd.deliveries[t] == old(dd.deliveries[t]) && (has(dd.deliveries, t) ==> dd.deliveries[t].Delivery == old(dd.deliveries[t].Delivery)))
+//@   loop 0 invariant forall t module.DeliveryTarget :: has(dd.deliveries, t) && !iterpos()[t] ==> gOpen[refOf(dd.deliveries[t].Delivery)]
+//@   loop 0 invariant forall t module.DeliveryTarget :: has(dd.deliveries, t) && iterpos()[t] ==> !gOpen[refOf(dd.deliveries[t].Delivery)]
+// Closing check and modifier states does not touch deliveries (interface assumption for checks / modifiers).
+//@ extern func (*dmarc.Verifier).Close(v *dmarc.Verifier) error
+//@ func (*checkRunner).close
+//@   prop C03
+//@   requires cr != nil
+//@ func (*msgpipelineDelivery).close
+//@   prop C03
+//@   modifies *
+//@   requires dd != nil && dd.checkRunner != nil
+//@   ensures gOpen == old(gOpen) && gCommitted == old(gCommitted) && dd.deliveries == old(dd.deliveries) && (forall t module.DeliveryTarget :: has(dd.deliveries, t) == old(has(dd.deliveries, t)) && dd.deliveries[t] == old(dd.deliveries[t]) && (has(dd.deliveries, t) ==> dd.deliveries[t].Delivery == old(dd.deliveries[t].Delivery)))
+
+// Start creates the pipeline delivery with no target delivery yet (they are opened lazily by AddRcpt); the sender
+// stage (checks, modifiers, source block selection) starts no target and touches no delivery (trusted frame of start;
+// its verdict obligations belong to C06 / C04).
+//@ func (*msgpipelineDelivery).start
+//@   prop C03
+//@   trusted
+//@   modifies *
+//@   ensures dd.deliveries == old(dd.deliveries) && dd.checkRunner == old(dd.checkRunner) && gOpen == old(gOpen) && gCommitted == old(gCommitted)
+//@   ensures forall t module.DeliveryTarget :: has(dd.deliveries, t) == old(has(dd.deliveries, t))
+//@ func newCheckRunner
+//@   prop C03
+//@   ensures result != nil && fresh(result)
+//@ func (*MsgPipeline).Start
+//@   prop C03
+//@   modifies *
+//@   requires d != nil && msgMeta != nil
+//@   ensures gOpen == old(gOpen) && gCommitted == old(gCommitted)
+//@   ensures result1 == nil ==> isType(result0, "*msgpipelineDelivery") && as(result0, "*msgpipelineDelivery") != nil && fresh(as(result0, "*msgpipelineDelivery")) && pInv(as(result0, "*msgpipelineDelivery")) && as(result0, "*msgpipelineDelivery").checkRunner != nil
+//@   ensures result1 == nil ==> (forall t module.DeliveryTarget :: !has(as(result0, "*msgpipelineDelivery").deliveries, t))
+// The error decorators of AddRcpt only build a new error value.
+//@ func (*msgpipelineDelivery).AddRcpt$1
+//@   prop C03
+//@ func (*msgpipelineDelivery).AddRcpt$2
+//@   prop C03
+//@ func (*msgpipelineDelivery).AddRcpt$3
+//@   prop C03
+// ... and so does a call through the local variable holding one of them.
+//@ extern func (*msgpipelineDelivery).AddRcpt#wrapErr$call(err error) error
